@@ -47,3 +47,16 @@ func VerifTable(v Variant) []VerifEntry {
 	}
 	return out
 }
+
+// VerifMatchName returns the name of the instruction type the parser's
+// opcode matcher selects for bs, without lifting the instruction.
+func (p Parser) VerifMatchName(bs []byte) (string, bool) {
+	if len(bs) < instructionLen {
+		return "", false
+	}
+	t, ok := p.matcher.Match(bs)
+	if !ok {
+		return "", false
+	}
+	return t.name, true
+}
